@@ -635,7 +635,19 @@ fn main() {
             if matches!(k, "state" | "check" | "inv" | "views" | "view" | "proxy") { continue; }
             // `@<cluster>.<chunk>.<half>` names the proxy currently in that chunk half (allocation is nondeterministic)
             let l = l.split(' ').map(|t| {
-                if let Some(r) = t.strip_prefix('@') {
+                if let Some(r) = t.strip_prefix("@h.") {
+                    // `@h.<cluster>.<host>`: the (alphabetically first) proxy of that cluster on that host
+                    let ps: Vec<&str> = r.split('.').collect();
+                    if let [c, h] = ps.as_slice() {
+                        if let Ok(cn) = ClusterName::try_from(*c) {
+                            let mut v: Vec<String> = w.store.clusters.get(&cn).map(|c| c.chunks.iter().flat_map(|ch| {
+                                ch.proxy_addresses.iter().cloned().zip(ch.hosts.iter().cloned()).collect::<Vec<_>>() })
+                                .filter(|(_, host)| host == h).map(|(a, _)| a).collect()).unwrap_or_default();
+                            v.sort();
+                            if let Some(a) = v.first() { return a.clone(); }
+                        }
+                    }
+                } else if let Some(r) = t.strip_prefix('@') {
                     let ps: Vec<&str> = r.split('.').collect();
                     if let [c, i, h] = ps.as_slice() {
                         if let (Ok(cn), Ok(i), Ok(h)) = (ClusterName::try_from(*c), i.parse::<usize>(), h.parse::<usize>()) {
